@@ -322,3 +322,63 @@ func VH02g_concurrent() {
 	verif.Reach("concurrent-checked")
 	sock.Close()
 }
+
+// VH02h_inflight_loss: a PUSH connection fails while a write on it is in
+// flight, and that write still reports success after the connection was
+// detached (the kernel had taken the bytes). That message may be lost. But
+// every message accepted AFTER the failed connection was fully detached, with
+// a healthy idle peer connected, is delivered to that peer: the dead
+// connection is never offered traffic again.
+func VH02h_inflight_loss() {
+	proto := pushes[verif.Choice("proto", 2)]
+	lab := "C02/" + proto + "/inflight"
+	sock := vp.New(proto)
+	verif.Assert(sock.SetOption(mangos.OptionWriteQLen, 1) == nil, lab+"/set-wqlen")
+	side := vt.Listen(sock, "a")
+	good := side.Peer("good")
+	bad := side.Peer("bad")
+	bad.SendMode = vt.SendHold
+	// traffic until a write is in flight on the bad connection
+	sent := 0
+	for i := 0; i < 3 && bad.SendCalls == 0; i++ {
+		var serr error
+		b := []byte{byte('a' + i), verif.Byte("pre")}
+		g := verif.Go("send", func() { serr = sock.Send(b) })
+		verif.Quiesce()
+		verif.Assert(g.Done() && serr == nil, lab+"/send-blocks-although-peers-take-messages")
+		if !g.Done() {
+			return
+		}
+		sent++
+	}
+	if bad.SendCalls == 0 {
+		verif.Assume(false) // the scheduler never picked the bad connection
+	}
+	bad.Drop()
+	verif.Quiesce()
+	bad.Release() // the in-flight write returns success although the connection is gone
+	verif.Quiesce()
+	n0 := len(good.Sent)
+	calls0 := bad.SendCalls
+	var bodies [][]byte
+	for i := 0; i < 3; i++ {
+		var serr error
+		b := []byte{byte('x' + i), verif.Byte("post")}
+		bodies = append(bodies, b)
+		g := verif.Go("send", func() { serr = sock.Send(b) })
+		verif.Quiesce()
+		verif.Assert(g.Done() && serr == nil, lab+"/send-blocks-although-a-healthy-peer-is-idle")
+		if !g.Done() {
+			return
+		}
+	}
+	verif.Assert(bad.SendCalls == calls0, lab+"/detached-connection-offered-traffic-again")
+	verif.Assert(len(good.Sent) == n0+3, lab+"/message-lost-although-accepted-after-the-failed-connection-was-detached")
+	for i, b := range bodies {
+		if n0+i < len(good.Sent) {
+			verif.Assert(verif.BytesEq(good.Sent[n0+i].Bytes(), b), lab+"/reordered-or-changed")
+		}
+	}
+	verif.Reach("inflight-checked")
+	sock.Close()
+}
